@@ -9,6 +9,18 @@ NOTE_COMMON = ("Trusted base: clang 14 parser/sema via libTooling (tools/ipqfact
                "computed from the current source of /repo only; nothing is executed. ")
 
 CLAIMS = {
+ "C02": dict(
+  technique="kind coverage/coherence of the assemble (step), write-back (saver) and totalise (cxxSystem::totalize, entity totalize) drivers",
+  text=("Deliberately narrow static claim about the skeleton that conservation rests on, not about conservation itself: (a) Phreeqc::step adds "
+        "every reacting part that is present - solution or mix (else a STOP error), reaction, kinetics, exchange, surface, gas phase, pure phases, "
+        "solid solutions - exactly once, each through the add_<kind> helper of the same kind under a guard on that kind's use pointer, and applies "
+        "the step's temperature and pressure under their own guards; (b) Phreeqc::saver has one block per result flag of class save, each calling "
+        "x<kind>_save of the same kind on the same kind's store and number range (flags nobody reads are reported as unused inputs); (c) "
+        "cxxSystem::totalize adds each element-carrying part once with coefficient 1 (the solution with H, O and charge), and every entity "
+        "totalize() clears its totals and adds all components in one loop that cannot skip a component, charge included. A dropped, duplicated or "
+        "crossed part breaks the element/charge balance of every step that contains that part. NOT decided: the arithmetic inside each part "
+        "(dropped term, wrong coefficient, sign error in add_*/x*_save), non-negativity, and conservation as a numerical fact."),
+  note=NOTE_COMMON + "Kind vocabulary derived from the store types (engine/kinds.py). The claim is labelled `other`; it does not establish conservation."),
  "C06": dict(
   technique="static-storage census + lock typestate dataflow on per-function CFGs + who-may-call census + compile-fail witnesses",
   text=("Static structural analysis of the whole library (82 units): (a) census of every variable with static storage - "
